@@ -2,13 +2,9 @@
   CoreSpec, histories with writes: deep verification of a node, part 5.
     * `walk_all`  : the walk invariant along `deep_verify_edges` (induction over the edges);
     * `Walk.tie`  : the tie of creator `r` re-built from the current reads before the `create`
-                    (for the old memo while `r` is busy: `LocalTie'`; for the re-stamped memo);
-    * `nodeOk_restamped` : all clauses of the memo marked verified after a successful walk;
-    * `LocalTie'`, `DeepOk'`, `deepOk'` : the result.  `LocalTie'` weakens `LocalTie`
-      (Proofs/CoreSpecRevSpecs.lean) in one place: an UNRECORDED read before the `create` passes
-      the shallow test (`sokDep`) but is not verified in the current revision (`hotDep`) — the walk
-      skips it; `LocalTie` itself is false after the walk in that situation (see the example at the
-      end of Proofs/CoreSpecRevDeep6.lean).
+                    (for the old memo while `r` is busy: `LocalTie`; for the re-stamped memo);
+    * `nodeOk_restamped` : all clauses of the memo marked verified after a successful walk.
+  The result (`deepOk`) is assembled in Proofs/CoreSpecRevDeep6.lean.
   Core Lean only.
 -/
 import SalsaVerif.Proofs.CoreSpecRevDeep4
@@ -41,7 +37,7 @@ theorem walk_all {mc : McaFn} (C : WalkCtx P idOf r s m R) (hmc : McaSpec P idOf
     exact ⟨done, w, fun _ => by rw [hs]; simp⟩
   | cons o rest ih =>
     intro done t hs w hpn
-    have ho := mem_of_split hs
+    have ho := dv_mem_of_split hs
     have hs' : m.obs = (done ++ [o]) ++ rest := by rw [hs]; simp
     have nok := w.inv.node r m w.mem
     have stk : ∀ t0, Sticky t0 (deepEdges mc P.spec r rest t0 m.va).1 :=
@@ -140,14 +136,14 @@ theorem nodeOk_restamped (C : WalkCtx P idOf r s m R) (w : Walk P idOf r s m R m
   have hstruct := structAt_green C.hP hI hd0 all
   refine ⟨⟨Nat.le_trans nok.obs.ca_va nok.obs.va_cur, Nat.le_refl _, hI.cur1, Nat.le_refl _, hI.cur1,
     nok.obs.dur3, ?_, ?_, Or.inl (hI.lc_le _), ?_, ?_, ?_, ?_, ?_⟩, nok.origin, ?_, nok.rank, ?_, ?_, nok.hd, ?_,
-    nok.hsrc, nok.outedge, nok.never, ?_⟩
+    nok.hsrc, nok.outedge, nok.never, ?_, nok.shape⟩
   · -- iv
     intro o ho hout
     exact rs_obsAt w.mem ((all o ho hout).obsAt hI t.cur)
   · -- kaca
     intro _ o ho hout
     obtain ⟨x, hx, _⟩ := (all o ho hout).info
-    exact ⟨x, by rw [rs_depInfo w.mem]; exact hx, depInfo_ca_le hI hx⟩
+    exact ⟨x, by rw [rs_depInfo w.mem]; exact hx, dv_depInfo_ca_le hI hx⟩
   · -- i5q
     intro o q' ho hout hd
     have g := all o ho hout
@@ -176,7 +172,7 @@ theorem nodeOk_restamped (C : WalkCtx P idOf r s m R) (w : Walk P idOf r s m R m
     rw [rs_mem_other (hlt o ho hout c hd)] at hmc
     obtain ⟨⟨mc', hmc', hsc⟩, _⟩ := hstruct o ho hout c mc hd hmc
     rw [hmc] at hmc'; cases hmc'
-    exact absurd hlt' (no_write_after_sok hI hsc w0 d hw hdur)
+    exact absurd hlt' (dv_no_write_after_sok hI hsc w0 d hw hdur)
   · -- i6
     intro o ho hout hr
     exact rs_obsAt w.mem ((all o ho hout).obsAt3 hI hr t.cur)
@@ -216,7 +212,7 @@ theorem nodeOk_restamped (C : WalkCtx P idOf r s m R) (w : Walk P idOf r s m R m
     · obtain ⟨A2, _, hA2, hva2, _⟩ := w.passed o ho hout hr
       rw [hA] at hA2; cases hA2
       exact Or.inl (Nat.le_of_eq hva2.symm)
-    · have : SOK s m := sok_of_never C.hI (by omega) (C.hI.node r m C.hm).obs.va1
+    · have : SOK s m := dv_sok_of_never C.hI (by omega) (C.hI.node r m C.hm).obs.va1
       exact absurd this C.hns
   · -- m4
     rcases nok.m4 with a | ⟨o, ho, hout, a⟩
